@@ -22,6 +22,7 @@ type Config struct {
 	Groups    string // comma list filter (empty = all)
 	CodecAll  bool   // binding i uses codec path i%3 (C03)
 	LastOp    string // pickembed: only behaviours ending in this op
+	Adapters  bool   // also run the suite-as-group adapters
 }
 
 func Load(path string) ([]Behaviour, [][]byte, error) {
@@ -61,7 +62,11 @@ func Run(cfg Config, res *core.Result) error {
 			filter[n] = true
 		}
 	}
-	for _, g := range groups.All() {
+	all := groups.All()
+	if cfg.Adapters {
+		all = append(all, groups.Adapters()...)
+	}
+	for _, g := range all {
 		if len(filter) > 0 && !filter[g.Name] {
 			continue
 		}
